@@ -320,9 +320,19 @@ def decode(code):
         return slice(None, None, -1)
     if code == "L":
         return [0, 2]
+    if code.startswith("L:"):  # a list written out: "L:2,1,0" -> [2, 1, 0] (content alphabet of list indices)
+        return [int(x) for x in code[2:].split(",")]
     if code == "...":
         return Ellipsis
     raise ValueError(code)
+
+
+def _is_list(code):
+    return code == "L" or code.startswith("L:")
+
+
+def code_text(code):
+    return "[0, 2]" if code == "L" else ("[" + code[2:].replace(",", ", ") + "]" if code.startswith("L:") else code)
 
 
 def index_of(ev):
@@ -336,7 +346,7 @@ def index_of(ev):
 def _valid_index(codes, n):
     if len(codes) > n:
         return False
-    if sum(c == "L" for c in codes) > 1 or sum(c == "..." for c in codes) > 1:
+    if sum(_is_list(c) for c in codes) > 1 or sum(c == "..." for c in codes) > 1:
         return False
     return sum(c in _INTS for c in codes) < n  # leaves at least one axis
 
@@ -488,12 +498,16 @@ def concrete_args(ev, shape):
             return {"pad_width": 1}
         if name == "asym":
             return {"pad_width": tuple((1, 0) if i % 2 == 0 else (0, 2) for i in range(n))}
+        if name == "lo1":  # one element before every axis (one-object tier: pad lo1 + crop all_last shifts the content)
+            return {"pad_width": tuple((1, 0) for _ in range(n))}
         return {"output_shape": tuple(s + (1 if i % 2 == 0 else 2) for i, s in enumerate(shape))}
     if kind == "crop":
         first = lambda L: (1, L) if L >= 2 else (0, 1)
         last = lambda L: (0, max(L - 1, 1))
         if name == "all_first":
             return {"crop_widths": tuple(first(L) for L in shape)}
+        if name == "all_last":
+            return {"crop_widths": tuple(last(L) for L in shape)}
         if name == "ax0_first":
             return {"crop_widths": ((1, shape[0]),), "axes": (0,)}
         if name == "last_last":
@@ -1082,7 +1096,7 @@ def call_text(ev, shape):
     if k == "set":
         return f"{ev[1]} = {SET_VALUES[(ev[1], ev[2])](len(shape))!r}"
     if k == "idx":
-        return "[" + ", ".join(ev[1:]).replace("L", "[0, 2]") + "]"
+        return "[" + ", ".join(code_text(c) for c in ev[1:]) + "]"
     a = concrete_args(ev, shape)
     return f"{METHOD[k]}(" + ", ".join(f"{x}={y!r}" for x, y in a.items()) + ")"
 
@@ -1227,7 +1241,7 @@ def execute(live, snap, fp, ev, mode, fails, st):
                 st["index_dropped_axis"] += 1
                 if type(r) is not type(live):
                     st["index_changed_class"] += 1
-            if "L" in ev and ("0" in ev or "-1" in ev) and numpy_moves_list_axis(index_of(ev), n):
+            if any(_is_list(c) for c in ev[1:]) and ("0" in ev or "-1" in ev) and numpy_moves_list_axis(index_of(ev), n):
                 st["index_list_axis_moved_by_numpy"] += 1
                 if DEMAND_CALIBRATION_FOLLOWS_MOVED_LIST_AXIS:
                     bad("calibration_follows_data_axes", "list_axis_moved_by_numpy",
@@ -1435,9 +1449,13 @@ def tier_config(tier):
     if tier == "quick":
         # depth 3 for ndim 3 costs another 1.0M transitions (170 CPU-s): measured not to fit the 60 s budget on the shared machine
         return {"maxdepth": {1: 3, 2: 3, 3: 2, 4: 2, 5: 2}, "dfull": {1: 1, 2: 1, 3: 1, 4: 0, 5: 0}, "dwide": {1: 1, 2: 1, 3: 1, 4: 0, 5: 0},
-                "dspell": {1: 1, 2: 1, 3: 1, 4: 0, 5: 0}, "ext_depth": 3, "ext_dtwin": 1}
+                "dspell": {1: 1, 2: 1, 3: 1, 4: 0, 5: 0}, "ext_depth": 3, "ext_dtwin": 1,
+                "lst": {"maxlen": 3, "long_axis": 5, "long_maxlen": 2, "d1_initials": "one_per_ndim_and_subclass", "d1_full_templates": False, "d1_variants": ["cp"]},
+                "obj_depth": 4, "obj_cycles": 6}
     return {"maxdepth": {1: 3, 2: 3, 3: 3, 4: 3, 5: 3}, "dfull": {1: 2, 2: 2, 3: 2, 4: 1, 5: 0}, "dwide": {1: 2, 2: 2, 3: 1, 4: 1, 5: 1},
-            "dspell": {1: 2, 2: 2, 3: 1, 4: 1, 5: 1}, "ext_depth": 4, "ext_dtwin": 2}
+            "dspell": {1: 2, 2: 2, 3: 1, 4: 1, 5: 1}, "ext_depth": 4, "ext_dtwin": 2,
+            "lst": {"maxlen": 3, "long_axis": 7, "long_maxlen": 2, "d1_initials": "all", "d1_full_templates": False, "d1_variants": ["cp", "ip"]},
+            "obj_depth": 5, "obj_cycles": 8}
 
 
 FULL_CHUNK = 1500
@@ -1563,6 +1581,13 @@ def shard(item, seed=0, cfg=None, scratch=None):
             sh.save(scratch, f"bfs_{init_i}_{item[2]}")
         elif kind == "ext":
             ext_shard(sh, item[1], seed, cfg["ext_depth"], cfg["ext_dtwin"], st)
+        elif kind in ("lst", "lst1"):
+            list_shard(sh, item, seed, cfg, st)
+            sh.save(scratch, "_".join(map(str, item)))
+        elif kind in ("obj", "cyc"):
+            obj_shard(sh, item, seed, cfg, st)
+            sh.seen.clear()  # one-object histories are not part of the BFS state count
+            sh.save(scratch, "_".join(map(str, item)))
         elif kind in ("dev", "dev0"):
             run_dev(sh, item, seed, st)
             sh.seen.clear()  # deep histories are not part of the BFS state count
@@ -1965,6 +1990,330 @@ def dev_initials():
     return two
 
 
+# ----------------------------------------------------------------------------- list-content tier
+# A_list: the CONTENT of a list index is an alphabet of its own. For an axis of length L every list of length <= 3
+# over the whole index range -L .. L-1 (ascending, descending, reaching index 0 / -L, constant stride and not,
+# duplicates, unsorted, negative spellings - simply all of them), lists of length <= 2 additionally with the two
+# out-of-range neighbours -L-1 and L (NumPy raises IndexError, the library must too), placed in every template the index
+# alphabet knows: alone on axis k behind k full slices, behind / before an Ellipsis, next to other slice forms, next to
+# an integer. Applied to every initial dataset and (plain and Ellipsis templates) to the states reached by one
+# shape-changing operation. Oracle: the ordinary one of indexing (NumPy-indexed data, kept-axis calibration).
+LIST_OOR_MAXLEN = 2
+LIST_D1_OPS = [("pad", "w1"), ("crop", "all_first"), ("bin", "2"), ("fr", "plus1"), ("idx", "::2"), ("idx", "::-1"), ("idx", "0"), ("idx", "1:")]
+_LISTS = {}
+
+
+def list_codes(L, maxlen):
+    key = (L, maxlen)
+    if key not in _LISTS:
+        out = []
+        for k in range(1, maxlen + 1):
+            vals = range(-L - 1, L + 1) if k <= LIST_OOR_MAXLEN else range(-L, L)
+            out += ["L:" + ",".join(map(str, t)) for t in itertools.product(vals, repeat=k)]
+        _LISTS[key] = out
+    return _LISTS[key]
+
+
+def list_templates(n, full):
+    """Index tuples with a placeholder X for the list."""
+    t = [(":",) * k + ("X",) for k in range(n)] + [("...", "X")]
+    if full:
+        t += [("X", "...")]
+        if n >= 2:
+            t += [("...", "X", ":"), ("::-1", "X"), ("X", "::2"), ("1:", "X"), ("0", "X"), ("X", "-1")]
+        if n >= 3:
+            t += [("0", ":", "X"), ("X", "...", "::2")]
+    out = []
+    for x in t:
+        if x not in out and _valid_index(tuple("L" if c == "X" else c for c in x), n):
+            out.append(x)
+    return out
+
+
+def template_axis(t, n):
+    pos = t.index("X")
+    return n - (len(t) - pos) if "..." in t[:pos] else pos
+
+
+def list_events(shape, full, maxlen, long_axis, long_maxlen):
+    n = len(shape)
+    out = []
+    for t in list_templates(n, full):
+        L = shape[template_axis(t, n)]
+        pos = t.index("X")
+        for code in list_codes(L, maxlen if L < long_axis else long_maxlen):
+            out.append(("idx",) + t[:pos] + (code,) + t[pos + 1 :])
+    return out
+
+
+def list_d1_initials(which):
+    return list(range(len(INITIALS))) if which == "all" else dev_initials()
+
+
+def list_shard(sh, item, seed, cfg, st):
+    """("lst", i): A_list in the initial state; ("lst1", i, op, variant): in the state one operation later."""
+    lc = cfg["lst"]
+    live = make_init(item[1], seed)
+    fp = fingerprint(live)
+    hist = []
+    depth = 0
+    if item[0] == "lst1":
+        ev, variant = LIST_D1_OPS[item[2]], item[3]
+        if variant == "cp":
+            succ, status, _, _ = execute(live, snapshot(live), fp, ev, "both", [], st.__class__())  # judged by the BFS parent
+            if status != "ok":
+                return
+        else:
+            succ = copy.deepcopy(live)
+            try:
+                _apply_inplace(succ, ev)
+            except Exception:
+                return  # judged by the BFS
+        if succ.array.size == 0:
+            return
+        live, fp, hist, depth = succ, fingerprint(succ), [ev + (("ip",) if variant == "ip" else ())], 1
+        sh.seen.add(canon_of(fp))
+    shape = tuple(live.array.shape)
+    events = list_events(shape, depth == 0 or lc["d1_full_templates"], lc["maxlen"], lc["long_axis"] if depth else 10**9, lc["long_maxlen"])
+    n0, r0 = sh.t.n, st["index_rejected_by_numpy"]
+    expand_state(sh, live, fp, hist, depth, events, None, st)
+    st["list_content_cases"] += sh.t.n - n0
+    st["list_content_rejected_by_numpy"] += st["index_rejected_by_numpy"] - r0
+    st[f"list_content_cases_depth{depth}"] += sh.t.n - n0
+
+
+# ----------------------------------------------------------------------------- one-object tier
+# Every tier above hands each operation a NEW object (the copying result, or a deep copy for the in-place variant). Here
+# ONE object lives through the whole history: mutations are executed in place on the object itself (pad / crop in place,
+# the array setter with a fresh array of the same shape and dtype, built and handed over without keeping a reference,
+# so that the old array is released), probes are the copying variants of the data-dependent operations executed on that
+# very object (which must not change it). Anything the object remembers between two calls (derived data kept across a
+# replacement of the array, identity-keyed memos - the address of a released array is handed to the next one) shows up
+# as a probe result that differs from the reference model, from the in-place variant on a deep copy, or from the same
+# operation on a freshly built dataset holding the same content.
+#   tree family:  every history of length <= obj_depth over OBJ_PROBES + OBJ_MUTATIONS (every step judged by the model;
+#                 the last step of every history additionally in-place-vs-copying and fresh-dataset differential);
+#   cycle family: P (R P)^obj_cycles for every probe P and every compound replacement R (executed raw, nothing in
+#                 between) that brings the object back to the same shape and dtype with other content - the same-sized
+#                 arrays released and allocated again and again make address reuse as likely as in user code.
+OBJ_PROBES = [("fr", "plus1"), ("bin", "2"), ("pad", "w1"), ("crop", "all_first")]
+OBJ_MUTATIONS = [(("pad", "lo1"),), (("crop", "all_last"),), (("crop", "all_first"),), (("arr",),)]
+OBJ_CYCLE_PROBES = OBJ_PROBES + [("fr", "minus1"), ("fr", "x2_ax0"), ("bin", "2_mean"), ("idx", "::2")]
+OBJ_REPLACEMENTS = {
+    "pad_then_crop": (("pad", "lo1"), ("crop", "all_last")),
+    "crop_then_pad": (("crop", "all_first"), ("pad", "lo1")),
+    "assign_1": (("arr",),),
+    "assign_2": (("arr",), ("arr",)),
+    "assign_3": (("arr",), ("arr",), ("arr",)),
+    "assign_same_content": (("arr_same",),),
+    "resample_up_down": (("fr", "plus1"), ("fr", "minus1")),
+}
+OBJ_TREE_INITIALS = [("Dataset", (4,), "float32"), ("Dataset", (3, 4), "complex64"), ("Dataset2d", (3, 4), "int16"), ("Dataset3d", (2, 3, 4), "float32"),
+                     ("Dataset4dstem", (2, 1, 3, 2), "complex64")]
+
+
+def obj_alphabet():
+    return [("pr",) + p for p in OBJ_PROBES] + [("mu",) + m for m in OBJ_MUTATIONS]
+
+
+def obj_content(pool, seed, init_i, shape, dtype, k):
+    """Content number k (mod 8) for the array setter: seeded, a member of the alphabet like the initial contents."""
+    key = (tuple(shape), np.dtype(dtype).str, k % 8)
+    if key not in pool:
+        rng = np.random.default_rng([int(seed), 31, int(init_i), k % 8] + [int(x) for x in shape])
+        if np.issubdtype(dtype, np.integer):
+            a = rng.integers(-40, 40, size=shape).astype(dtype)
+        elif np.issubdtype(dtype, np.complexfloating):
+            a = (rng.standard_normal(shape) + 1j * rng.standard_normal(shape)).astype(dtype)
+        else:
+            a = rng.standard_normal(shape).astype(dtype)
+        pool[key] = a
+    return pool[key]
+
+
+def fresh_diff(r, rf, exact, st):
+    """Fields in which a result differs from the result of the same operation on a freshly built dataset. The two
+    computations are the same code on the same numbers; bit equality is expected and counted, but for the
+    floating-point operations (bin, fourier_resample) only agreement within the model tolerance is demanded."""
+    diff = result_diff(r, rf)
+    if diff and not exact and all(d in ("array bytes", "dtype") for d in diff) and r.array.size:
+        a, b = np.asarray(r.array), np.asarray(rf.array)
+        if np.iscomplexobj(a) == np.iscomplexobj(b):
+            scale = max(1.0, float(np.abs(b).max()))
+            err = float(np.abs(a.astype(np.complex128) - b.astype(np.complex128)).max()) / scale
+            if err <= (TOL_SINGLE if a.dtype in (np.float32, np.complex64) else TOL_DOUBLE):
+                st["obj_fresh_result_close_not_bitwise"] += 1
+                return []
+    return diff
+
+
+def obj_apply_raw(target, subs, contents):
+    """The sub-events of one mutation, executed in place on `target` one after the other with nothing in between."""
+    k = 0
+    for sub in subs:
+        if sub[0] == "arr":
+            target.array = np.array(contents[k])  # a fresh array, no reference kept: the previous array is released
+            k += 1
+        elif sub[0] == "arr_same":
+            target.array = np.array(target.array)  # same content, new identity
+        else:
+            getattr(target, METHOD[sub[0]])(modify_in_place=True, **concrete_args(sub, tuple(target.array.shape)))
+
+
+def obj_event_text(ev, shape):
+    if ev[0] == "pr":
+        return "probe " + call_text(tuple(ev[1:]), shape)
+    parts = []
+    for sub in ev[1:]:
+        sub = tuple(sub)
+        parts.append({"arr": "array = <fresh array, same shape and dtype, other content>", "arr_same": "array = np.array(array)"}.get(sub[0]) or
+                     ("in-place " + (METHOD[sub[0]] + "(" + sub[1] + ")" if not shape else call_text(sub, shape))))
+    return "on the object itself: " + "; ".join(parts)
+
+
+def run_obj_history(init_i, seed, hist, st, fails_out, judge_all=True, pool=None, verbose=False):
+    """One history on ONE object. Returns (number of executions, number of steps done). Stops at the first failure;
+    fails_out gets (class, message, length of the failing prefix)."""
+    pool = {} if pool is None else pool
+    obj = make_init(init_i, seed)
+    nexec = arr_k = 0
+    at_probe = []
+    for j, ev in enumerate(hist):
+        ev = tuple(tuple(x) if isinstance(x, list) else x for x in ev)
+        snap = snapshot(obj)
+        shape = tuple(snap.a.shape)
+        n = len(shape)
+        fails = []
+        if ev[0] == "pr":
+            pev = ev[1:]
+            if not applicable(pev, n):
+                continue
+            fp = fingerprint(obj)
+            key = (shape, snap.a.dtype.str)
+            if any(k == key and b != fp[3] for k, b in at_probe):
+                st["obj_probes_after_content_replaced_at_same_shape"] += 1
+            at_probe.append((key, fp[3]))
+            full = judge_all or j == len(hist) - 1
+            _CANON.clear()
+            if full or pev[0] not in METHOD:
+                succ, status, ne, dirty = execute(obj, snap, fp, pev, "both", fails, st)
+            else:
+                succ, status, ne, dirty = execute(obj, snap, fp, pev + ("cp",), "path", fails, st)
+            nexec += ne
+            if full and status == "ok" and not fails and pev[0] in METHOD:
+                rf = exc = None
+                try:
+                    rf = _apply_copying(rebuild(snap), pev)
+                except Exception as e:
+                    exc = e
+                nexec += 1
+                diff = ["raised " + repr(exc)] if exc is not None else fresh_diff(succ, rf, EXACT[pev[0]], st)
+                if diff:
+                    fails.append(({"relation": "equals_same_operation_on_fresh_dataset", "op": pev[0], "field": "+".join(diff)},
+                                  f"{describe_m(snap)} . {call_text(pev, shape)} on an object with a history gives {describe(succ)}, on a freshly built dataset "
+                                  f"holding the same content {describe(rf) if rf is not None else exc!r} ({', '.join(diff)} differ)"))
+                else:
+                    st["obj_fresh_compared"] += 1
+            if verbose:
+                print(f"  step {j + 1}: {obj_event_text(ev, shape)} -> {status}: {describe(succ) if succ is not None else '-'}; object {describe(obj)}")
+        else:
+            subs = ev[1:]
+            cands, exact, contents, exc = [snap], True, [], None
+            cur = shape
+            try:  # the model first (it also fixes the contents handed to the setter)
+                for sub in subs:
+                    if sub[0] == "arr":
+                        c = obj_content(pool, seed, init_i, cur, cands[0].a.dtype, arr_k)  # (the setter never follows a resample inside one compound)
+                        arr_k += 1
+                        contents.append(c)
+                        cands = [M(c, m.o, m.s, m.u, m.cls, m.tag) for m in cands]
+                    elif sub[0] != "arr_same":
+                        args = concrete_args(sub, cur)
+                        exact = exact and EXACT[sub[0]]
+                        cands = [m2 for m in cands for m2 in (model_fr(m, **args) if sub[0] == "fr" else MODEL[sub[0]](m, **args))]
+                    cur = tuple(cands[0].a.shape)
+            except ModelMismatch as e:
+                raise Broken(f"one-object tier: the model cannot follow {ev}: {e}")
+            fresh = rebuild(snap)
+            try:
+                obj_apply_raw(obj, subs, contents)
+            except Exception as e:
+                exc = e
+            nexec += len(subs)
+
+            def bad(rel, field, msg):
+                fails.append(({"relation": rel, "op": "+".join(s_[0] for s_ in subs), "field": field, "tier": "one_object"}, f"{describe_m(snap)} . {obj_event_text(ev, shape)}: {msg}"))
+
+            if exc is not None:
+                bad("unexpected_exception", "in_place", f"raised {exc!r}")
+            else:
+                inv = invariants(obj)
+                for f, msg in inv:
+                    bad("class_matches_dimensionality" if f == "class" else "one_entry_per_axis", f, msg)
+                if not inv:
+                    res, m = compare_any(obj, cands, exact)
+                    if res is not None:
+                        bad("result_equals_model", res[0], f"{res[1]}; object is {describe(obj)}, model {describe_m(m)}")
+                    else:
+                        try:
+                            obj_apply_raw(fresh, subs, contents)
+                            diff = fresh_diff(obj, fresh, exact, st)
+                        except Exception as e:
+                            diff = ["raised " + repr(e)]
+                        nexec += len(subs)
+                        if diff:
+                            bad("equals_same_operation_on_fresh_dataset", "+".join(diff), f"the object is {describe(obj)}, a freshly built dataset after the same calls {describe(fresh)}")
+            if verbose:
+                print(f"  step {j + 1}: {obj_event_text(ev, shape)} -> object {describe(obj)}")
+        if fails:
+            fails_out.extend((c, m, j + 1) for c, m in fails)
+            return nexec, j + 1
+        if obj.array.size == 0:
+            return nexec, j + 1
+    return nexec, len(hist)
+
+
+def obj_case(init_i, hist, judge_all):
+    return {"kind": "obj", "init": init_i, "initial": list(map(str, INITIALS[init_i])), "judge_all": bool(judge_all), "history": [[list(x) if isinstance(x, tuple) else x for x in e] for e in hist]}
+
+
+def obj_shard(sh, item, seed, cfg, st):
+    init_i = item[1]
+    pool = {}
+    if item[0] == "obj":  # tree family below one first event
+        O = obj_alphabet()
+        failed = []
+        for length in range(1, cfg["obj_depth"] + 1):
+            for rest in itertools.product(O, repeat=length - 1):
+                hist = [O[item[2]]] + list(rest)
+                if any(hist[: len(f)] == f for f in failed):
+                    st["obj_histories_below_a_failed_prefix"] += 1
+                    continue
+                fails = []
+                nexec, _ = run_obj_history(init_i, seed, hist, st, fails, judge_all=False, pool=pool)
+                sh.t.case(nontrivial=False, n=nexec)
+                st["obj_executions"] += nexec
+                st["obj_tree_histories"] += 1
+                for cls, msg, upto in fails:
+                    failed.append(hist[:upto])
+                    sh.t.fail(cls, obj_case(init_i, hist[:upto], False), msg)
+    else:  # cycle family
+        nd = sh.nd0
+        for P in OBJ_CYCLE_PROBES:
+            if not applicable(P, nd):
+                continue
+            for rname in sorted(OBJ_REPLACEMENTS):
+                hist = [("pr",) + P] + [("mu",) + OBJ_REPLACEMENTS[rname], ("pr",) + P] * cfg["obj_cycles"]
+                fails = []
+                nexec, _ = run_obj_history(init_i, seed, hist, st, fails, judge_all=True, pool=pool)
+                sh.t.case(nontrivial=False, n=nexec)
+                st["obj_executions"] += nexec
+                st["obj_cycle_histories"] += 1
+                sh.out.add(("cyc", P[0], rname, bool(fails)))
+                for cls, msg, upto in fails:
+                    sh.t.fail(cls, obj_case(init_i, hist[:upto], True), msg)
+
+
 # ----------------------------------------------------------------------------- driver
 def run_history(init_i, seed, hist, fails_out, verbose=False):
     """Re-execute one history with all checks at every step (self-test and replay). Owns Dataset._registry."""
@@ -2078,6 +2427,21 @@ def run(ctx):
         F = len(full_only(nd))
         for lo in range(0, F, FULL_CHUNK):
             items.append(("full", i, lo, min(F, lo + FULL_CHUNK)))
+    # list-content tier and one-object tier (see the sections above)
+    lc = cfg["lst"]
+    for i in range(len(INITIALS)):
+        items.append(("lst", i))
+    for i in list_d1_initials(lc["d1_initials"]):
+        nd = len(INITIALS[i][1])
+        for k, ev in enumerate(LIST_D1_OPS):
+            if ev[0] == "idx" and not _valid_index(ev[1:], nd):
+                continue
+            for variant in lc["d1_variants"]:
+                if variant == "cp" or ev[0] in METHOD:
+                    items.append(("lst1", i, k, variant))
+    for spec in OBJ_TREE_INITIALS:
+        items += [("obj", INITIALS.index(spec), k) for k in range(len(obj_alphabet()))]
+    items += [("cyc", i) for i in range(len(INITIALS))]
     parent_dev = (DEV.single, DEV.double, DEV.cal)
     ctx.tally.merge(parent)
     sizes = {n: {"A_in": len(inner_alphabet(n)), "A_in_executions_per_state": len(inner_alphabet(n)) + sum(1 for e in inner_alphabet(n) if e[0] in METHOD),
@@ -2085,7 +2449,7 @@ def run(ctx):
     ctx.say(f"{len(INITIALS)} initial datasets; alphabets per ndim: " + ", ".join(f"{n}: |A_in|={v['A_in']} |A_full|={v['A_full']}" for n, v in sizes.items()))
     ctx.say(f"{len(items)} shards (distinct depth-1 successors + root chunks of A_full), bounds {json.dumps(cfg)}")
     # heavy shards first (scheduling only; the result does not depend on the order)
-    items.sort(key=lambda it: (it[0] != "bfs", -cfg["maxdepth"][len(INITIALS[it[1]][1])], -len(INITIALS[it[1]][1]), it[1], it[2] if len(it) > 2 else -1))
+    items.sort(key=lambda it: (it[0] != "bfs", it[0] != "obj", -cfg["maxdepth"][len(INITIALS[it[1]][1])], -len(INITIALS[it[1]][1]), it[1], it[2] if len(it) > 2 else -1))
     if reg0 is not None:
         items = [("ext", name) for name in EXT_INITIALS] + items  # extension tier: one shard per initial, started first
     # preliminary counts (depth 1 only), overwritten below; keeps partial evidence valid if the ceiling is hit
@@ -2166,7 +2530,7 @@ def _explore(ctx, cfg, items, parent, parent_dev, root_digests, sizes, side):
     ctx.coverage["spellings"] = spellings
     ext_tr, ext_states = int(extra.get("ext_transitions", 0)), int(extra.get("ext_states", 0))
     transitions = sum(int(v) for k, v in extra.items() if k.startswith("tr_nd")) + ext_tr
-    dev_steps = int(extra.get("dev_steps", 0))
+    dev_steps = int(extra.get("dev_steps", 0)) + int(extra.get("obj_executions", 0))  # everything executed outside the BFS
     per_ndim = {}
     for n in range(1, 6):
         depths = [int(k.split("_")[1][1:]) for k, v in extra.items() if k.startswith("new_d") and k.endswith(f"_nd{n}") and v > 0]
@@ -2192,6 +2556,23 @@ def _explore(ctx, cfg, items, parent, parent_dev, root_digests, sizes, side):
                         "twins_in_states_up_to_depth": cfg["ext_dtwin"], "states": ext_states, "transitions": ext_tr,
                         "refused_by_subclass_hook": int(extra.get("refused_by_subclass_hook", 0)),
                         "index_results_of_a_class_registered_later": int(extra.get("ext_results_of_a_class_registered_later", 0))},
+        list_content_tier={
+            "lists": "every list of length <= maxlen over -L..L-1 for an axis of length L; lists of length <= %d also with the out-of-range neighbours -L-1 and L" % LIST_OOR_MAXLEN,
+            "bounds": cfg["lst"], "lists_per_axis_length": {str(L): len(list_codes(L, cfg["lst"]["maxlen"])) for L in range(1, 5)},
+            "templates_initial_states_ndim3": [list(t) for t in list_templates(3, True)], "templates_depth1_ndim3": [list(t) for t in list_templates(3, cfg["lst"]["d1_full_templates"])],
+            "depth1_states_after": [list(e) for e in LIST_D1_OPS], "depth1_initials": [list(map(str, INITIALS[i])) for i in list_d1_initials(cfg["lst"]["d1_initials"])],
+            "cases": int(extra.get("list_content_cases", 0)), "cases_in_initial_states": int(extra.get("list_content_cases_depth0", 0)),
+            "cases_one_operation_later": int(extra.get("list_content_cases_depth1", 0)), "rejected_by_numpy_and_by_the_library": int(extra.get("list_content_rejected_by_numpy", 0)),
+        },
+        one_object_tier={
+            "probes": [list(e) for e in OBJ_PROBES], "mutations_on_the_object_itself": [[list(x) for x in m] for m in OBJ_MUTATIONS], "tree_depth": cfg["obj_depth"],
+            "tree_initials": [list(map(str, x)) for x in OBJ_TREE_INITIALS], "tree_histories": int(extra.get("obj_tree_histories", 0)),
+            "cycle_probes": [list(e) for e in OBJ_CYCLE_PROBES], "cycle_replacements": {k: [list(x) for x in v] for k, v in OBJ_REPLACEMENTS.items()},
+            "cycle_repetitions": cfg["obj_cycles"], "cycle_initials": len(INITIALS), "cycle_histories": int(extra.get("obj_cycle_histories", 0)),
+            "executions": int(extra.get("obj_executions", 0)), "results_compared_with_a_fresh_dataset": int(extra.get("obj_fresh_compared", 0)),
+            "of_these_close_but_not_bitwise": int(extra.get("obj_fresh_result_close_not_bitwise", 0)),
+            "probes_after_the_content_was_replaced_at_the_same_shape_and_dtype": int(extra.get("obj_probes_after_content_replaced_at_same_shape", 0)),
+        },
         bounds=cfg,
         worst_deviation={"single_precision_data": worst[0], "double_precision_data": worst[1], "calibration": worst[2],
                          "tolerances": {"single": TOL_SINGLE, "double": TOL_DOUBLE, "calibration": TOL_CAL}},
@@ -2199,6 +2580,11 @@ def _explore(ctx, cfg, items, parent, parent_dev, root_digests, sizes, side):
     )
     if dev_cov:
         ctx.coverage["deviation_histories"] = dev_cov
+    lt, ot = ctx.coverage["list_content_tier"], ctx.coverage["one_object_tier"]
+    ctx.say(f"list-content tier: {lt['cases']} index expressions ({lt['cases_in_initial_states']} in initial states, {lt['cases_one_operation_later']} one operation later, "
+            f"{lt['rejected_by_numpy_and_by_the_library']} rejected like NumPy); one-object tier: {ot['tree_histories']} tree + {ot['cycle_histories']} cycle histories, {ot['executions']} executions, "
+            f"{ot['probes_after_the_content_was_replaced_at_the_same_shape_and_dtype']} probes after a same-shape replacement, {ot['results_compared_with_a_fresh_dataset']} fresh-dataset comparisons "
+            f"({ot['of_these_close_but_not_bitwise']} close but not bitwise)")
     ctx.say(f"worst deviations: single-precision data {worst[0]:.3g} (tol {TOL_SINGLE:g}), double-precision data {worst[1]:.3g} (tol {TOL_DOUBLE:g}), calibration {worst[2]:.3g} (tol {TOL_CAL:g})")
     if extra.get("states_skipped_changed_after_creation", 0) and not ctx.tally.nfails:
         raise Broken("states changed after their creation although no operation was seen to modify its source")
@@ -2207,6 +2593,14 @@ def _explore(ctx, cfg, items, parent, parent_dev, root_digests, sizes, side):
         raise Broken("degenerate enumeration: fewer than 1000 alternative spellings were accepted and compared")
     if reg0_present and not ctx.tally.nfails and (extra.get("refused_by_subclass_hook", 0) < 20 or extra.get("ext_results_of_a_class_registered_later", 0) < 20):
         raise Broken("degenerate extension tier: too few refusals by the subclass hooks / results of classes registered later")
+    if not ctx.tally.nfails:
+        want = len(OBJ_TREE_INITIALS) * sum(len(obj_alphabet()) ** k for k in range(1, cfg["obj_depth"] + 1))
+        if extra.get("obj_tree_histories", 0) != want:
+            raise Broken(f"one-object tier executed {extra.get('obj_tree_histories', 0)} tree histories != enumerated space {want}")
+        if extra.get("obj_probes_after_content_replaced_at_same_shape", 0) < 1000 or extra.get("obj_fresh_compared", 0) < 1000:
+            raise Broken("degenerate one-object tier: too few probes after a replacement of the content at the same shape and dtype")
+        if extra.get("list_content_cases", 0) < 20000 or extra.get("list_content_rejected_by_numpy", 0) < 500:
+            raise Broken("degenerate list-content tier")
     need = {"index_dropped_axis": 100, "index_changed_class": 50, "index_rejected_by_numpy": 100, "inplace_vs_copying_compared": 500, "setter_rejections": 50}
     for k, lo in need.items():
         if extra.get(k, 0) < lo and not ctx.tally.nfails:
@@ -2217,6 +2611,14 @@ def _explore(ctx, cfg, items, parent, parent_dev, root_digests, sizes, side):
 
 def replay(ctx, case):
     fails = []
+    if case.get("kind") == "obj":
+        i = int(case["init"])
+        print(f"  initial {INITIALS[i]} (seed {ctx.seed}); ONE object lives through the history of {len(case['history'])} events (mutations in place on the object, probes = copying variants on it):")
+        run_obj_history(i, ctx.seed, case["history"], Tally().extra, fails, judge_all=bool(case.get("judge_all", True)), verbose=True)
+        for cls, msg, _ in fails:
+            ctx.fail(cls, case, msg)
+            print(f"  observed vs expected: {msg}")
+        return
     i = case["init"]
     i = i if isinstance(i, str) and i.startswith("ext:") else int(i)
     print(f"  initial {EXT_INITIALS[i[4:]] if isinstance(i, str) else INITIALS[i]} (seed {ctx.seed}); history of {len(case['history'])} events:")
